@@ -1,9 +1,9 @@
 CONSTANTS
  ProcSeq <- P2
  Confs <- SensibleConfs
- Modes = {"tag", "api", "oci"}
- Caches = {0, 1}
- Pages = {0, 1}
+ Modes = {"tag"}
+ Caches = {1}
+ Pages = {0}
  TagDels = {0, 1}
  SubjSel = {"same"}
  MaxOps = 3
